@@ -151,6 +151,12 @@ func (v Val) ToGo() any {
 	case "s":
 		return v.S
 	case "i":
+		switch v.S { // the Go type a caller holding sized integers passes
+		case "64":
+			return int64(v.I)
+		case "32":
+			return int32(v.I)
+		}
 		return int(v.I)
 	case "f":
 		return v.F
@@ -229,6 +235,9 @@ func (v Val) String() string {
 	case "s":
 		return strconv.Quote(v.S)
 	case "i":
+		if v.S != "" {
+			return strconv.FormatInt(v.I, 10) + "i" + v.S
+		}
 		return strconv.FormatInt(v.I, 10)
 	case "f":
 		return strconv.FormatFloat(v.F, 'g', -1, 64) + "f"
